@@ -16,7 +16,7 @@ CFG = {
             'quick tier: (1) 18 curated scenarios of 2-3 transactions (witnesses of the theorems: Release / checkAndPrune eviction / reader error path / '
             'scrapped element while a writer is in flight, cross writers A,B/B,A, announced writer behind readers, abort, construction failures, limits 0 and 1): '
             'ALL interleavings when there are at most 150, else 150 seeded random ones; (2) two transactions with programs of length 1: a seeded order of ALL '
-            'program pairs (up to swapping the transactions and renaming A<->B) x limits -1,0,1, ALL interleavings each, until 2200 schedules; (3) 900 seeded '
+            'program pairs (up to swapping the transactions and renaming A<->B) x limits -1,0,1, ALL interleavings each, until 2200 schedules; (2b) accesses AFTER the Commit of the same transaction (the straggler goroutine of an operation that has returned): earlier access none / read A / write A / write B / failing write A, Commit(false) and Commit(true), late access read or write on A or B, limits -1,0,1 alone, and paired with a second transaction (all interleavings up to 12 per configuration, seeded above that); (3) 900 seeded '
             'random configurations of 2-3 transactions with programs of length <= 2, limits -1,0,1,2, Release(name) events at random moments, Commit(true) '
             'without failed access, random interleaving. thorough tier: all interleavings of every scenario with at most 2000 (else 2000 seeded ones), programs of length <= 2 for the pairs (budget '
             '30000 schedules), 10000 samples, three transactions with programs of length 1 exhaustively (budget 20000); stats.exhaustive says what was '
@@ -31,10 +31,12 @@ CFG = {
                     'cacheTx.Commit(false) in shard.go); a reader that builds a cache from an OLD bbolt snapshot after a commit (slow reader) is the C08/C09 '
                     'variant of F6 and not visible at the level of the cache package',
                     'hypothesis of c11_progress: concurrently active writing transactions touch disjoint cache names (cache names are prefixed by the shard file, '
-                    'bbolt admits one writer per file); without it c11_cross_writers_refuted',
-                    'hypotheses of c11_exclusion / c11_coherent_without_eviction_of_locked: no With after Commit, and a clean schedule (no map entry of a '
-                    'write-locked / awaited element is removed unless scrapped, no writer is handed a scrapped element); without them the statements are '
-                    'refuted (known finding F6)'],
+                    'bbolt admits one writer per file); without it c11_cross_writers_refuted. The same hypothesis limits code 110: a writer that already holds, or '
+                    'was already waiting for, an element when another writer of the same name commits is not judged stale',
+                    'hypothesis of c11_exclusion: no With after Commit in the PROGRAMS of the theorem (the harness does issue With after Commit and compares with the '
+                    'model; c11_coherent, c11_locks_released, c11_scrapped_not_reused hold for arbitrary programs)',
+                    'between the bbolt commit and cacheTx.Commit a cache registered from the old data is still readable for that window (the model commits storage '
+                    'and cache in one step); the window closes at cacheTx.Commit, which discards it'],
     'trusted_extra': ['no hook in /repo: the cache package is driven through its exported API; the manager map and the writtenCaches of a transaction are READ '
                       'through reflect/unsafe (observation and clean-up of blocked goroutines only)',
                       'block detection reads runtime.Stack wait reasons (Go 1.24 strings sync.Mutex.Lock, sync.RWMutex.Lock, sync.RWMutex.RLock, semacquire)'],
@@ -46,35 +48,35 @@ CODES = {
     102: 'a callback STARTED on an element after a callback on it had failed / after the transaction that wrote it committed with failure (scrapped element reused)',
     103: 'after every transaction had committed or aborted the probe transaction blocked (a lock was not released)',
     104: 'a read-only access blocked',
+    105: 'a writing access was accepted (its callback ran) after the Commit of its own transaction had returned: nobody is left to release that lock',
     110: 'stale element: a callback started on an element created before a successful commit to its name by another transaction that had not written that '
-         'element (known finding F6)',
+         'element (F6, repaired by 2d185e4: a recurrence is a violation)',
     201: 'the observations (status of every transaction, element identities, With errors, blocked, manager map) differ from the model on the same schedule',
-    202: 'the harness tagged the schedule as meeting the precondition of F6 but the model run is clean',
+    202: 'the harness observed the entry of a write-held cache leaving the map (tag F6pre) but the model run has no such step',
 }
 
 LEVEL = {
     'text': 'Machine-checked proof (Coq) over an executable small-step model of shard/cache/manager.go that splits With at its real atomic boundaries '
-            '(manager section incl. createFn of a new entry; TryRLock / Lock announce / wait for readers; scrapped check; callback begin and end; error path; '
-            'deferred checkAndPrune and RUnlock in LIFO order), Commit, Release, limits -1 / 0 / n, for both versions of With (pinned and current). By '
-            'induction over ARBITRARY schedules, ANY number of transactions and ANY program lengths: a scrapped element is never selected again '
-            '(unconditional); with the current With every lock is released once all transactions have committed or aborted, every error path and With '
-            'after Commit included (refuted for the pinned version: c11_post_commit_with_refuted_v0); progress under the hypothesis that concurrently '
-            'active writers use disjoint names (satisfied e.g. by any programs with one writing transaction; refuted without it: cross writers, outside '
-            'the property\'s progress clause); readers never wait for an element lock; exclusion (no reader or foreign callback on a write-held element, no '
-            'overlap with a writing callback, private copies unregistered) and coherence (a registered unlocked element reflects committed storage) along '
-            'every CLEAN schedule. KNOWN FINDING (F6, not fixed): without cleanliness both are refuted by the faithful model and on the real code -- when '
-            'the map entry of a write-locked cache is removed while its writer is in flight (Release, eviction by checkAndPrune, limit-0 clear, error path of '
-            'a reader on a private copy, Commit(true) of an earlier failed writer) or a waiting writer is handed a scrapped element, a reader registers a '
-            'cache built from the pre-commit storage that stays in the map after the commit (stale, code 110), and the writer\'s next access uses it '
-            'without a lock while readers read it (code 101); ./check prints KNOWN-FINDING for these schedules, which are generated on every run. '
-            'The real package is driven along forced schedules (all interleavings of the stated bounds, goroutine-dump block detection) and its observation '
-            'trace must equal the model\'s on every schedule.',
+            '(held-cache shortcut; manager section incl. createFn of a new entry; TryRLock / Lock announce / wait for readers; scrapped check; callback begin '
+            'and end; error path; deferred checkAndPrune and RUnlock in LIFO order), Commit, Release, limits -1 / 0 / n, for three versions of the manager '
+            '(pinned; after 1944012; current = after 2d185e4). By induction over ARBITRARY schedules (Release / eviction / pruning / failures at any moment), '
+            'ANY number of transactions and ANY program lengths, for the CURRENT tree: coherence -- every registered, unscrapped, unlocked cache reflects the '
+            'committed storage, so "evicting or releasing a cache at any moment is harmless" (c11_coherent, no hypothesis at all); exclusion -- no reader or '
+            'foreign callback on a write-held element, no overlap with a writing callback, private copies unregistered (c11_exclusion, programs without With '
+            'after Commit); a scrapped element is never selected again; every lock is released once all transactions have committed or aborted, every error '
+            'path and With after Commit included; progress under the hypothesis that concurrently active writers use disjoint names (satisfied by any programs '
+            'with one writing transaction; refuted without it: cross writers, outside the property\'s progress clause); readers never wait for an element lock. '
+            'The defects of the earlier versions are kept as witnesses: c11_evict_harmless_refuted_v0 and c11_exclusion_refuted_v0 (F6: stale cache registered '
+            'while a writer was in flight; writer using a foreign cache without its lock), c11_late_reader_refuted_v1 (read access after Commit without a lock), '
+            'c11_post_commit_with_refuted_v0 (leaked write lock). The real package is driven along forced schedules (all interleavings of the stated bounds, '
+            'accesses after Commit included, goroutine-dump block detection) and its observation trace must equal the model\'s on every schedule; stale '
+            'hand-outs, overlaps, reuse of scrapped elements, blocked probes and writes accepted after Commit are judged on the observations alone.',
     'design_ref': 'DESIGN.md 4.11',
-    'note': 'Trusted: Coq kernel; Model_C11.v (tied to manager.go by equality of the observation traces on every explored schedule; mutation of the '
+    'note': 'Trusted: Coq kernel; Model_C11.v (tied to manager.go by equality of the observation traces on every explored schedule; a mutation of the '
             'model -- TryRLock ignoring an announced writer -- is caught by 61 schedules of the quick tier); the harness. The scrapped check and the call of '
             'the callback are two steps: a reader overtaken by another failing READER of the same element starts its callback on a scrapped element '
             '(c11_scrapped_check_race_refuted; needs two concurrent readers, not observable at the harness granularity). Transactions with several goroutines '
-            'inside With are not modelled.',
+            'inside With are not modelled. c11_exclusion is stated for programs without With after Commit.',
     'technique': 'Coq proof (lock-protocol invariants by induction over arbitrary schedules and any number of transactions) + exhaustive forced-schedule '
                  'enumeration of the real cache package compared with the model',
 }
